@@ -227,6 +227,12 @@ def g2(ctx):
             if infeasible_after_failed_cas(evs):
                 continue
             ops = atomic_ops(p)
+            if not ops and nm == 'async_blocking_wait' and via_own_poll(p, evs) is not None:
+                # the wait is written over `self.poll()` - the same read, fence and test, which G2 / G6 check on `poll` itself: the
+                # path ends with poll() == Ready(v) and returns that v
+                ctx.oblige(1, sample='%s [%s]: state read through Signal::poll' % (nm, p.signature()[-60:]))
+                ctx.instance('%s return path' % nm)
+                continue
             if not ops:
                 ctx.violate(b.key, p, '%s returns without reading the state' % nm)
                 continue
@@ -445,6 +451,25 @@ def g5(ctx):
             ctx.violate(b.key, None, 'KanalWaker lacks variant(s) %s' % sorted(need - set(variants)), sig='variants')
 
 
+def via_own_poll(p, evs):
+    """`if let Poll::Ready(v) = self.poll() { return v }`: the path's LAST question to the state is a call of Signal::poll on this very
+    signal that answered Ready, no atomic operation of its own follows, and the value returned is the payload of that answer.
+    Returns that payload value, or None."""
+    polls = [e for e in p.events if e.kind == 'call' and e.name == SIGK.replace('::<T>', '') + 'poll']
+    if not polls:
+        return None
+    last = polls[-1]
+    if not (last.args and last.args[0] == ('param', 1)):
+        return None
+    br = [e for e in evs if e.name == 'BR' and e.data['label'] == 'sigpoll' and contains(e.data['val'], last.val)]
+    if not br or br[-1].data['outcome'] != 'Ready':
+        return None
+    pay = ('field', ('downcast', last.val, 'Ready'), '0')
+    if p.ret != pay:
+        return None
+    return pay
+
+
 @rule('G6', ['C06', 'C07', 'C13', 'C16'], 'wait shapes: success only on UNLOCKED; blocking waits return only after state<LOCKED; park re-checks; wait_timeout fails only at the deadline')
 def g6(ctx):
     for nm in WAITERS:
@@ -461,6 +486,8 @@ def g6(ctx):
             ctx.oblige(1, sample='%s [%s] -> %s' % (nm, p.signature()[-50:], fmt(p.ret)))
             r = p.ret
             core = r
+            if nm == 'async_blocking_wait' and not atomic_ops(p) and via_own_poll(p, evs) is not None:
+                continue  # returns what `self.poll()` answered with Ready: final state, `v == UNLOCKED` - by G6 on poll
             if nm == 'poll':
                 if r is not None and r[0] == 'agg' and r[2] == 'Pending':
                     # Pending only when the state is still >= LOCKED
